@@ -501,7 +501,7 @@ theorem alpha_erase {e : Nat} {g : Group} (hg : groupOfEff e = some g) (d : PyDi
 /-- the numbers of a digits-only setting text -/
 def valsOf (t : Str) : List Nat := (Py.splitOnChar ';' t).map Py.digitsVal
 
-/-- the shapes `isGroupTxt` admits: one code that does not open an extended colour, or a complete
+/-- the shapes `isGroupTxt` allows: one code that does not open an extended colour, or a complete
     extended-colour group -/
 inductive GroupVals : List Nat → Prop
   | single (c : Nat) : c ≠ 38 → c ≠ 48 → c ≠ 58 → GroupVals [c]
